@@ -11,6 +11,7 @@ import Proofs.UndoForward
 import Proofs.UndoAround
 import Proofs.UndoFit
 import Proofs.MarkupSuccess
+import Proofs.HistoryUndo
 namespace PM.C04
 open PM
 
@@ -1390,5 +1391,85 @@ theorem nodeMark_undo (S : Schema) (doc doc' : Node) (pos : Nat) (m : Mark) (inv
       exact add_remove_eq S n.marks m hcanP hmm (fun o ho e => hty n hn1 o ho m hmm e)
     · simp only [Except.ok.injEq] at hi; subst hi
       exact remBack m
+
+/-! ## The history clause: "applying the inverted steps in reverse order restores a document equal to
+   the starting one" (work package `wk-histundo`)
+
+`Tr.undo` (Proofs/HistoryUndo.lean) inverts the recorded steps against their recorded documents and
+applies the inverses last to first, starting from the current document — the loop of the
+`history-undo` oracle of harness/props/c04.py. -/
+
+/-- what `replay` records, position by position -/
+theorem replay_get (S : Schema) : ∀ (steps : List Step) (d0 : Node) (docs : List Node) (fin : Node),
+    replay S d0 steps = some (docs, fin) →
+    steps.length = docs.length ∧ (docs[0]?).getD fin = d0 ∧
+    ∀ k (hk : k < steps.length), ∃ d, docs[k]? = some d ∧
+      S.apply steps[k] d = .ok ((docs[k + 1]?).getD fin)
+  | [], d0, docs, fin, h => by
+    simp only [replay, Option.some.injEq, Prod.mk.injEq] at h
+    obtain ⟨rfl, rfl⟩ := h
+    exact ⟨rfl, rfl, fun k hk => by simp at hk⟩
+  | s :: steps, d0, docs, fin, h => by
+    simp only [replay] at h
+    cases ha : S.apply s d0 with
+    | error e => simp [ha] at h
+    | ok d1 =>
+      simp only [ha] at h
+      cases hr : replay S d1 steps with
+      | none => simp [hr] at h
+      | some p =>
+        obtain ⟨ds, fin1⟩ := p
+        simp only [hr, Option.map_some, Option.some.injEq, Prod.mk.injEq] at h
+        obtain ⟨rfl, rfl⟩ := h
+        obtain ⟨h1, h2, h3⟩ := replay_get S steps d1 ds fin1 hr
+        refine ⟨by simp [h1], rfl, fun k hk => ?_⟩
+        cases k with
+        | zero => exact ⟨d0, rfl, by simpa [h2] using ha⟩
+        | succ k =>
+          obtain ⟨d, hd, hk'⟩ := h3 k (by simpa using hk)
+          exact ⟨d, by simpa using hd, by simpa using hk'⟩
+
+/-- **composition, over a replayed history**: if every recorded step — applied to its recorded
+    document, giving the next recorded document — is undone exactly by its inverse (the inverse
+    computed against the recorded document applies to the next one and gives the recorded document
+    back), then applying the inverted steps in reverse order to the final document restores the
+    starting document. -/
+theorem history_undo_of_replay (S : Schema) (d0 : Node) (steps : List Step) (docs : List Node) (fin : Node)
+    (hrep : replay S d0 steps = some (docs, fin))
+    (hall : ∀ k (hk : k < steps.length), ∀ d, docs[k]? = some d →
+      S.apply steps[k] d = .ok ((docs[k + 1]?).getD fin) →
+      StepUndoes S steps[k] d ((docs[k + 1]?).getD fin)) :
+    S.unwind (steps.zip docs) fin = .ok d0 := by
+  obtain ⟨hlen, h0, hk⟩ := replay_get S steps d0 docs fin hrep
+  have hrc := replayChain_zip S steps docs fin hlen hk
+  have := unwind_of_invariant S (fun _ => True)
+    (fun s d d' => S.apply s d = .ok d' → StepUndoes S s d d')
+    (fun s d d' _ ha hg => ⟨hg ha, trivial⟩) (steps.zip docs) fin trivial hrc (fun k hk' ha => by
+      have hks : k < steps.length := by simp [List.length_zip] at hk'; omega
+      have hkd : k < docs.length := by omega
+      rw [histNext_zip_drop steps docs fin (k + 1) hlen] at ha ⊢
+      simp only [List.getElem_zip] at ha ⊢
+      exact hall k hks docs[k] (List.getElem?_eq_getElem hkd) ha)
+  rw [this]
+  have := histNext_zip_drop steps docs fin 0 hlen
+  simp only [List.drop_zero] at this
+  rw [this, h0]
+
+/-- **Target: the history clause as a composition theorem** (`history_inv`'s structure: any finite
+    sequence of attempted steps run through `Transform.maybe_step`).  If every *recorded* step `s_k`,
+    applied to the recorded document `docs_k` and giving `docs_{k+1}` (the current document for the
+    last one), satisfies "`invert s_k docs_k = ok inv_k` and `apply inv_k docs_{k+1} = ok docs_k`",
+    then the inverted steps applied in reverse order to the final document restore the starting
+    document.  The single-step theorems of this file (`replace_undo`, `replaceAround_undo`,
+    `attr_undo`, `nodeMark_undo`, and `removeMarkStep_undo` / `addMarkStep_undo` below) discharge
+    the hypothesis step by step. -/
+theorem history_undo_of_steps (S : Schema) (doc : Node) (sts : List Step) :
+    let tr := (Tr.init doc).run S sts
+    (∀ k (hk : k < tr.steps.length), ∀ d, tr.docs[k]? = some d →
+      S.apply tr.steps[k] d = .ok (tr.docAfter k) → StepUndoes S tr.steps[k] d (tr.docAfter k)) →
+    tr.undo S = .ok doc := by
+  intro tr hall
+  obtain ⟨_, _, _, _, hrep⟩ := history_inv S doc sts
+  exact history_undo_of_replay S doc tr.steps tr.docs tr.doc hrep hall
 
 end PM.C04
